@@ -213,6 +213,17 @@ def r13_4(ctx, rep):
     rep.ob(R, site, "rebuild guarded by is_affine", ok, "the A*p + b rebuild must be guarded by is_affine")
 
 
+@SPEC.rule(
+    "R13.5",
+    "element correspondence under vector expansion (shared with C18 R18.4): the attribute element given to the scalar "
+    "named by a multi-index is the array attribute indexed with that same multi-index",
+)
+def r13_5(ctx, rep):
+    from .c18 import element_correspondence
+
+    element_correspondence(ctx, rep, "R13.5")
+
+
 # -- seeded variants ---------------------------------------------------------
 from ._mut import replace_in_func  # noqa: E402
 
